@@ -153,12 +153,15 @@ def generate(prop, seed, tier):
     n_ops = S.int(2, 6)
     lsq_ok = fam == "ExpWeibull" and fixed_names == ["delta"]
     for k in range(n_ops):
-        kind = S.wpick([("fit", 5), ("eval", 3), ("fit_bad", 1.2), ("fit_other", 1.5)])
+        kind = S.wpick([("fit", 5), ("eval", 3), ("fit_bad", 1.2), ("fit_other", 1.5), ("clone", 0.6)])
+        if kind == "clone":
+            scen["ops"].append({"op": "clone"})
+            continue
         if kind == "eval":
             scen["ops"].append({"op": "eval", "pseed": S.sub("e", k), "n": S.int(3, 9)})
             continue
         n = S.pick([40, 120, 400, 1000])
-        op = {"op": "fit", "n": n, "dseed": S.sub("d", k), "method": "mle", "weights": None, "source": "family"}
+        op = {"op": "fit", "n": n, "dseed": S.sub("d", k), "method": "mle", "weights": None, "source": "family", "container": S.wpick([("ndarray", 4), ("list", 1), ("series", 1)])}
         if lsq_ok and S.chance(0.5):
             op["method"] = S.pick(["lsq", "wlsq", "WLSQ"])
             op["weights"] = S.pick(["linear", "quadratic", "cubic"])
@@ -327,7 +330,20 @@ def execute(prop, scen):
                 if run.violations:
                     return run
                 continue
+            if op["op"] == "clone":
+                dist = copy.deepcopy(dist)  # the user continues with a deep copy
+                run.count("probe:continued-on-deep-copy")
+                run.event("clone", None, dict(dist.parameters))
+                if not check_state(run, scen, dist, "after-deepcopy", si):
+                    return run
+                continue
             data = _data(scen, op)
+            if op.get("container") == "list":
+                data = data.tolist()
+            elif op.get("container") == "series":
+                import pandas as pd
+
+                data = pd.Series(data)
             before = dict(dist.parameters)
             exc = None
             seams.pin_global(core.h64(scen["seed"], si))
@@ -407,6 +423,12 @@ def execute_conditional(prop, scen):
                 run.event("other", [op["family"], op["fixed"], op["fit"]], None)
                 if run.violations:
                     return run
+                continue
+            if op["op"] == "clone":
+                cond = copy.deepcopy(cond)
+                tmpl = cond.distribution
+                run.count("probe:continued-on-deep-copy")
+                run.event("clone", None, None)
                 continue
             if op["op"] == "eval":
                 if not fitted:
@@ -520,5 +542,5 @@ def describe(prop):
             "a fit that raises TypeError/AttributeError/KeyError/NotImplementedError/AssertionError for a supported (subset, method) pair is a violation; numerical estimator failures are inconclusive",
             "least squares is 'supported' only for the exponentiated Weibull with delta fixed (the class raises NotImplementedError otherwise by design)",
         ],
-        "probes": ["clean-fit-after-failed-fit", "rejected-data-accepted", "bystander-object-alive"],
+        "probes": ["clean-fit-after-failed-fit", "rejected-data-accepted", "bystander-object-alive", "continued-on-deep-copy"],
     }
